@@ -80,6 +80,7 @@ func runC06(c *ShardCtx) {
 				o := cb
 				o.MaxExpr = 3000
 				o.Statistics = o.Statistics || o.Memoize // to read ExprCnt
+				o.TrackEvals = o.Memoize && !b.Flags.LeftRecursion
 				obs := b.Run(in, &o, script)
 				c.Res.Evaluations++
 				var diffs []string
@@ -99,6 +100,14 @@ func runC06(c *ShardCtx) {
 							diffs = append(diffs, "Memoize: block "+k+" invoked twice at the same offset")
 						}
 						seen[k] = true
+					}
+					// census: no (expression, offset) pair is evaluated twice (labeled expressions
+					// excepted: they bind in the scope they run in and are never answered from the table)
+					if obs.EvalRepeat != "" {
+						diffs = append(diffs, "Memoize: evaluated twice: "+obs.EvalRepeat)
+					}
+					if obs.EvalCalls > 0 {
+						c.Res.Counters["census_runs"]++
 					}
 					bound := uint64(b.NExprs+len(g.Rules)) * uint64(len(in)+1)
 					if obs.ExprCnt > bound {
